@@ -1,8 +1,169 @@
-(* C02 — statements only (draft). *)
+(* C02 — A pipeline computes what its steps say: routing, recovery, unwrapping.
+   Statements only; proofs are in proofs/PipeProofs.v.
+
+   [core_run] (model/Pipe.v) mirrors the implementation: dispatch by invocability in the order of
+   Tag / CallImpl / CallResolveState, CallImpl's function-try-block, CallResolveAsync + re-entry through Impl /
+   async_done, Done, executor transfer, Submit on an alive / stopped executor, PromiseCore, ReadyCore,
+   coroutine promise.  [seq_eval] is the sequential reading of the property text.  Programs [p], callback bodies
+   (arbitrary total functions [input -> outcome]), chain lengths, nesting depth of returned chains, values,
+   errors and exceptions are all universally quantified. *)
 From Coq Require Import List ZArith Bool.
 Import ListNotations.
-From YV Require Import model.Pipe proofs.PipeProofs.
+From YV Require Import model.Pipe model.PipeObs proofs.PipeProofs.
 
+(* The final Result, the ordered list of callback invocations (id, executor, submitted?, argument), the executor
+   the last core holds and the static value type: everything the implementation-shaped run produces is what
+   the sequential reading produces.  [chain src steps] = src followed by the steps, any length. *)
+Theorem c02_refines :
+  forall src steps o, core_run (chain src steps) = Some o -> o = seq_eval (chain src steps).
+Proof. exact refines_chain. Qed.
+Print Assumptions c02_refines.
+
+(* the same for every program shape (conversions, chains returned by callbacks of chains returned by ...) *)
 Theorem c02_refines_prog : forall p o, core_run p = Some o -> o = seq_eval p.
-Proof. exact refines_all. Qed.
+Proof. exact refines. Qed.
 Print Assumptions c02_refines_prog.
+
+(* in the vocabulary of the property: final Result and ordered list of (callback id, argument) *)
+Theorem c02_refines_observables : forall p o, core_run p = Some o -> obs o = obs (seq_eval p).
+Proof. exact refines_obs. Qed.
+Print Assumptions c02_refines_observables.
+
+(* core_run is None only where the C++ does not compile: every program accepted by the typing of Pipe.v (the rules
+   the generated table is built from, every cell of which is compiled) runs ... *)
+Theorem c02_typed_programs_run : forall p, wt p -> exists o, core_run p = Some o.
+Proof. exact typed_runs. Qed.
+Print Assumptions c02_typed_programs_run.
+
+(* ... and ends with a Result of the handle's static value type ("a recovery callback must keep the value type"
+   is what makes the pass-through branch of CallResolveState type-correct) *)
+Theorem c02_type_sound : forall p o, wt p -> core_run p = Some o ->
+  (exists w, prog_ty p = Some (w, o_ty o)) /\ res_has_ty (o_ty o) (o_res o) = true.
+Proof. exact type_sound. Qed.
+Print Assumptions c02_type_sound.
+
+(* ---- the clauses, one by one, about a step [PThen q id par a rt body] whose predecessor chain q produced oq.
+   [arrives a oq] is the Result that reaches the step: oq's, or StopError when the step was handed to a stopped
+   executor; [exec_of a oq] the executor its core holds. *)
+
+(* a callback taking the value runs only on success (with that value); otherwise the failure passes through
+   unchanged and nothing is invoked *)
+Theorem c02_value_cb_only_on_success_failure_passes_unchanged :
+  forall q id par a rt body oq o,
+  value_class par -> core_run q = Some oq -> core_run (PThen q id par a rt body) = Some o ->
+  match arrives a oq with
+  | Val v => exists i rest, o_evs o = o_evs oq ++ Ev id (exec_of a oq) (is_call a) i :: rest /\
+                            (i = IVal v \/ i = INone \/ i = IUnit)
+  | r => o_res o = r /\ o_evs o = o_evs oq
+  end.
+Proof. exact value_cb. Qed.
+Print Assumptions c02_value_cb_only_on_success_failure_passes_unchanged.
+
+(* a callback taking the error type / std::exception_ptr runs only on that kind of failure; otherwise the Result
+   (value or the other kind of failure) passes through *)
+Theorem c02_recovery_only_on_its_kind :
+  forall q id par a rt body oq o,
+  par = PError \/ par = PExc -> core_run q = Some oq -> core_run (PThen q id par a rt body) = Some o ->
+  match par, arrives a oq with
+  | PError, Err e => exists rest, o_evs o = o_evs oq ++ Ev id (exec_of a oq) (is_call a) (IErr e) :: rest
+  | PExc, Exc x => exists rest, o_evs o = o_evs oq ++ Ev id (exec_of a oq) (is_call a) (IExc x) :: rest
+  | _, r => o_res o = r /\ o_evs o = o_evs oq
+  end.
+Proof. exact recovery_cb. Qed.
+Print Assumptions c02_recovery_only_on_its_kind.
+
+(* a callback taking Result (or a generic one) always runs, with the Result that arrived *)
+Theorem c02_result_cb_always_runs :
+  forall q id par a rt body oq o,
+  result_class par -> core_run q = Some oq -> core_run (PThen q id par a rt body) = Some o ->
+  exists rest, o_evs o = o_evs oq ++ Ev id (exec_of a oq) (is_call a) (IRes (arrives a oq)) :: rest.
+Proof. exact result_cb. Qed.
+Print Assumptions c02_result_cb_always_runs.
+
+(* whatever a callback throws becomes the Exception state; a returned value / Result is stored as is; a returned
+   Future, SharedFuture or Task — however it was built: [p'] is any program — is flattened: the step completes with
+   the inner result, and the inner chain's callbacks run right after this callback *)
+Theorem c02_throw_stored_flatten :
+  forall q id par a rt body oq o i,
+  core_run q = Some oq -> core_run (PThen q id par a rt body) = Some o ->
+  invoked par (arrives a oq) = Some i ->
+  match body i with
+  | Throw x => o_res o = Exc x
+  | RetV v => o_res o = Val v
+  | RetVoid => o_res o = Val VUnit
+  | RetRes r => o_res o = r
+  | RetAsync k p' =>
+      exists oi, core_run p' = Some oi /\ o_res o = o_res oi /\
+                 o_evs o = o_evs oq ++ Ev id (exec_of a oq) (is_call a) i :: o_evs oi
+  end.
+Proof. exact invoked_outcome. Qed.
+Print Assumptions c02_throw_stored_flatten.
+
+(* every step contributes no invocation, or exactly one followed by the invocations of the chain it returned,
+   after everything its predecessors contributed: at most once, in pipeline order *)
+Theorem c02_each_step_at_most_once_in_order :
+  forall q id par a rt body oq o,
+  core_run q = Some oq -> core_run (PThen q id par a rt body) = Some o ->
+  o_evs o = o_evs oq \/
+  exists i, invoked par (arrives a oq) = Some i /\
+    (o_evs o = o_evs oq ++ [Ev id (exec_of a oq) (is_call a) i] \/
+     exists k p' oi, body i = RetAsync k p' /\ core_run p' = Some oi /\
+       o_evs o = o_evs oq ++ Ev id (exec_of a oq) (is_call a) i :: o_evs oi).
+Proof. exact step_once_in_order. Qed.
+Print Assumptions c02_each_step_at_most_once_in_order.
+
+(* what "arrives" means: the predecessor's Result, except on a stopped executor *)
+Theorem c02_stopped_executor_sees_stop :
+  forall a oq, is_call a = true -> alive (exec_of a oq) = false -> arrives a oq = Err EStop.
+Proof. exact stopped_sees_stop. Qed.
+Print Assumptions c02_stopped_executor_sees_stop.
+
+Theorem c02_otherwise_sees_predecessor :
+  forall a oq, is_call a = false \/ alive (exec_of a oq) = true -> arrives a oq = o_res oq.
+Proof. exact alive_sees_result. Qed.
+Print Assumptions c02_otherwise_sees_predecessor.
+
+(* the compile-time dispatch of the implementation (by invocability, in Tag's priority order) selects exactly
+   the reading by parameter class, in every world where the class compiles *)
+Theorem c02_dispatch_by_invocability_is_dispatch_by_class :
+  forall p t r, call_impl p t r =
+    if par_ok p t then Some (match invoked p r with Some i => Invoke i | None => Pass r end) else None.
+Proof. exact call_impl_class. Qed.
+Print Assumptions c02_dispatch_by_invocability_is_dispatch_by_class.
+
+(* ---- non-vacuity: programs run on the real library by harness/h_c02 (final Result and calls as observed there) *)
+Local Open Scope Z_scope.
+
+(* MakeFuture<int>(Err{3}).ThenInline(f1(int)).ThenInline(f2(Err)): f1 skipped, f2 recovers *)
+Example c02_witness_skip_then_recover :
+  obs_z (PThen (PThen (PReady WF TInt (Err 3)) 1 PValue AInline TInt (hb (BRetI 5))) 2 PError AInline TInt (hb (BRetI 7)))
+  = [1; 1; 1; 0; 110; 1; 2; 2; 2; 3].
+Proof. vm_compute. reflexivity. Qed.
+
+(* Run(stopped, f1).Then(f2(Result)).Then(manual, f3(exception_ptr)): f1 dropped, f2 sees StopError, f3 skipped *)
+Example c02_witness_stopped :
+  obs_z (PThen (PThen (PRun WO XStopped 1 PNone TInt (hb (BRetI 2))) 2 PResult AInherit TInt (hb (BRetI 1)))
+               3 PExc (AOn (XManual 1)) TInt (hb (BRetI 0)))
+  = [1; 1; 1; 0; 100; 1; 2; 0; 2; -1].
+Proof. vm_compute. reflexivity. Qed.
+
+(* the program of finding S8 (fixed by 898bf94): a callback returning a Schedule()-built Task is flattened *)
+Example c02_witness_flatten_schedule_task :
+  obs_z (PThen (PReady WF TInt (Val (VInt 1))) 1 PValue AInline TInt
+               (hb (BAsync KTask (PRun WT XInline 9 PNone TInt (hb (BRetI 2))))))
+  = [1; 1; 1; 0; 2; 2; 1; 1; 0; 1; 9; 4; 1; 0].
+Proof. vm_compute. reflexivity. Qed.
+
+(* a callback that throws after a LazyContract Task was unwrapped on a manual executor, then a generic callback *)
+Example c02_witness_flatten_lazycontract_then_auto :
+  obs_z (PThen (PThen (PReady WF TInt (Val (VInt 1))) 1 PValue (AOn (XManual 0)) TInt
+                      (hb (BAsync KTask (PProm WT TInt XInline 9 (PBSet false (Val (VInt 4)))))))
+               2 PAuto AInherit TVoid (hb BRetV))
+  = [1; 1; 1; 1; 0; 3; 1; 1; 0; 1; 9; 4; 1; 0; 2; 0; 0; 4].
+Proof. vm_compute. reflexivity. Qed.
+
+(* the model refuses what the compiler refuses: f() on a Future<int>, f(int) on a Future<void> *)
+Example c02_witness_does_not_compile :
+  core_run (PThen (PReady WF TInt (Val (VInt 1))) 1 PNone AInline TInt (hb (BRetI 5))) = None /\
+  core_run (PThen (PReady WF TVoid (Val VUnit)) 1 PValue AInline TInt (hb (BRetI 5))) = None.
+Proof. split; vm_compute; reflexivity. Qed.
